@@ -221,6 +221,19 @@ def families(tier='quick', seed=0):
     add('nested', 'n:[{f},{f}]', {'idents': {'A': M((K('n'), L(M((K('f'), S('a'))), M((K('f'), S('b'))))))}, 'cond': ('id', 'A')})
     add('nested', 'seq n.f|n.g', {'idents': {'A': ('seq', [M((K('n'), M((K('f'), S('a'))))), M((K('n'), M((K('g'), S('b')))))])}, 'cond': ('id', 'A')})
     add('nested', 'n.f,n.f2 in one map', {'idents': {'A': M((K('n'), M((K('f'), S('a')))), (K('g'), S('c')))}, 'cond': ('id', 'A')})
+    # three conjuncts make an and-*group*, whose same-field nested blocks shake merges into nested(n, all(or[..]))
+    nA, nB, nH = M((K('n'), M((K('f'), S('a'))))), M((K('n'), M((K('g'), S('b'))))), M((K('h'), S('c')))
+    and3 = ('and', ('and', ('id', 'A'), ('id', 'B')), ('id', 'C'))
+    add('nested', 'n.f&n.g&h', {'idents': {'A': nA, 'B': nB, 'C': nH}, 'cond': and3})
+    add('nested', 'not(n.f&n.g&h)', {'idents': {'A': nA, 'B': nB, 'C': nH}, 'cond': ('not', and3)})
+    add('nested', 'not(n.f&n.g)', {'idents': {'A': nA, 'B': nB}, 'cond': ('not', ('and', ('id', 'A'), ('id', 'B')))})
+    nC = M((K('n'), M((K('h'), S('c')))))
+    add('nested', 'not(n.f&n.g&n.h)', {'idents': {'A': nA, 'B': nB, 'C': nC}, 'cond': ('not', and3)})
+    add('nested', 'of0(n.f&n.g&n.h)', {'idents': {'A': nA, 'B': nB, 'C': nC, 'D': M((K('k'), S('d')))},
+                                       'cond': ('or', ('not', and3), ('id', 'D'))})
+    nA2, nB2 = M((K('n'), M((K('f'), S('a')), (K('g'), S('b'))))), M((K('n'), M((K('f'), S('c')), (K('g'), S('d')))))
+    add('nested', 'rows n.fg&n.fg&h', {'idents': {'A': nA2, 'B': nB2, 'C': nH}, 'cond': and3})
+    add('nested', 'not(rows n.fg&n.fg&h)', {'idents': {'A': nA2, 'B': nB2, 'C': nH}, 'cond': ('not', and3)})
     # dotted / indexed keys (paths resolved by Object::find when the document implements Object)
     add('dotted', 'n.f', {'idents': {'A': M((K('n.f'), S('a')))}, 'cond': ('id', 'A')})
     add('dotted', 'n.m.f', {'idents': {'A': M((K('n.m.f'), S('a*')), (K('g'), ('i', 1)))}, 'cond': ('id', 'A')})
